@@ -10,9 +10,12 @@
       error, allowed by the property, but the reason `refuse` carries a guard (`upperhex_counterexample`);
     * string tokens with a backslash are outside `evalPy` (`classifyStr … = other`, answer `unsupported`): `_cat` joins token TEXTS,
       which does not commute with decoding escapes (`escape_counterexample`; known finding `escape-merge-concat`).
-  Helper lemmas: Tranp/Lemmas/Evaluator.lean.
+  Second observation point (the text py2cpp inlines for `Enum.Member.value`, Tranp/Model/EmitValue.lean): `output_agree`,
+  `output_sound` (no guard on the expression; the type answer of Reflections must fit CPython's value).
+  Helper lemmas: Tranp/Lemmas/Evaluator.lean, Tranp/Lemmas/EmitValue.lean.
 -/
 import Tranp.Lemmas.Evaluator
+import Tranp.Lemmas.EmitValue
 
 namespace Tranp.C17
 open Tranp Tranp.Evaluator
@@ -157,6 +160,65 @@ theorem escape_counterexample : ¬ cat_commutes_with_decoding_statement := by
   intro h
   have := h ['\'','\\','1','\''] ['\'','2','\''] (by decide) (by decide)
   revert this
+  decide
+
+/-! ## the enum value text in the output (py2cpp.py:850-860) -/
+
+/-- **output_agree**: whenever CPython evaluates the member value to `v'` and the type answer of Reflections fits `v'`
+    (`str` exactly for strings, a bare-printed name exactly for numbers), the text `on_relay` inlines for `Enum.Member.value`,
+    read back (decimal text or literal token, optionally in parentheses; text between double quotes; a float as Python's `str(x)` or a
+    token `float()` reads as `x`), denotes `v'` with the same type — for every expression, environment, fuel and interpretation of
+    `float`. No guard on the expression (since 61fd1e4 a string literal as whole value goes through the evaluator as well). -/
+theorem output_agree {F : Type} (ops : FloatOps F) (env : Env) (fuel : Nat) (mem : Member) (ti : TyInfo) (venv : VEnv F)
+    (v' : V F) (text : Str)
+    (hty : mem.ty = .ok ti) (hfit : ti.fits v')
+    (hc : Cons .py ops env venv) (hp : evalPy .py ops env.known venv (toPy mem.value) = .ok v')
+    (he : emitValue ops env fuel mem = .ok text) : Denotes ops text v' := by
+  have h := emit_core .py ops env (fun _ => True) (fun _ _ => trivial) (fun _ => trivial) fuel mem ti venv v' hty hfit hc hp
+  rw [he] at h
+  exact h
+
+/-- non-vacuity of `output_agree` and regression of the seeded mutation: `B = -(7 % -3)` is inlined as `2`, `C = -A` with
+    `A = 0x10` as `(-16)`, `D = str(A) + 'x'` as `"16x"`, the token `0x10` itself as `0x10`. -/
+example :
+    let a : Expr := .integer ['0','x','1','0']
+    let b : Expr := .factor ['-'] (.group (.chain ['o','n','_','t','e','r','m'] (.integer ['7']) [(['%'], .factor ['-'] (.integer ['3']))]))
+    let c : Expr := .factor ['-'] (.var ['A'] none)
+    let d : Expr := .chain ['o','n','_','s','u','m'] (.call ['s','t','r'] [.var ['A'] none]) [(['+'], .string ['\'','x','\''])]
+    let env : Env := ⟨[(['A'], a), (['B'], b), (['C'], c), (['D'], d)], [['s','t','r']]⟩
+    let num : Except TyErr TyInfo := .ok ⟨['i','n','t'], false⟩
+    let str : Except TyErr TyInfo := .ok ⟨['s','t','d',':',':','s','t','r','i','n','g'], true⟩
+    emitValue freeOps env 9 ⟨a, num⟩ = .ok ['0','x','1','0']
+    ∧ emitValue freeOps env 9 ⟨b, num⟩ = .ok ['2']
+    ∧ emitValue freeOps env 9 ⟨c, num⟩ = .ok ['(','-','1','6',')']
+    ∧ emitValue freeOps env 9 ⟨d, str⟩ = .ok ['"','1','6','x','"']
+    ∧ evalPy .py freeOps env.known (bindAll .py freeOps env.known [] [(['A'], a)]) (toPy c) = .ok (.int (-16)) := by
+  decide
+
+/-- **output_sound**: … and when `on_relay` fails instead, it is a refusal (an application error that is not a wrapped Python
+    exception: OperationNotAllowed, UnresolvedSymbol, an error of type inference, the recursion limit) — with `0X…` literals cut out. -/
+theorem output_sound {F : Type} (ops : FloatOps F) (env : Env) (fuel : Nat) (mem : Member) (ti : TyInfo) (venv : VEnv F) (v' : V F)
+    (hty : mem.ty = .ok ti) (hfit : ti.fits v')
+    (hc : Cons .strict ops env venv) (hp : evalPy .strict ops env.known venv (toPy mem.value) = .ok v') :
+    (∃ text, emitValue ops env fuel mem = .ok text ∧ Denotes ops text v') ∨ (∃ er, emitValue ops env fuel mem = .error er ∧ Refusal er) := by
+  have h := emit_core .strict ops env Refusal (fun _ h => h) (by intro h; cases h) fuel mem ti venv v' hty hfit hc hp
+  cases hx : emitValue ops env fuel mem with
+  | ok text => rw [hx] at h; exact Or.inl ⟨text, rfl, h⟩
+  | error er => rw [hx] at h; exact Or.inr ⟨er, rfl, h⟩
+
+/-- non-vacuity of `output_sound`: `'a' * 2` as member value is refused although CPython has `'aa'`. -/
+example :
+    emitValue freeOps ⟨[], []⟩ 9 ⟨.chain ['o','n','_','t','e','r','m'] (.string ['\'','a','\'']) [(['*'], .integer ['2'])], .ok ⟨['s'], true⟩⟩
+      = .error .notAllowed := by
+  decide
+
+/-- regression of 61fd1e4 (former `lone_literal_counterexample`): a string literal as the WHOLE enum value goes through the
+    evaluator — `'''a'''` and `r'a'` are refused (they used to be inlined as `"''a''"` / `"'a"`), a plain `'a'` is inlined as `"a"`. -/
+example :
+    let str : Except TyErr TyInfo := .ok ⟨['s','t','d',':',':','s','t','r','i','n','g'], true⟩
+    emitValue freeOps ⟨[], []⟩ 5 ⟨.string ['\'','\'','\'','a','\'','\'','\''], str⟩ = .error .notAllowed
+    ∧ emitValue freeOps ⟨[], []⟩ 5 ⟨.string ['r','\'','a','\''], str⟩ = .error .notAllowed
+    ∧ emitValue freeOps ⟨[], []⟩ 5 ⟨.string ['\'','a','\''], str⟩ = .ok ['"','a','"'] := by
   decide
 
 end Tranp.C17
